@@ -1319,6 +1319,11 @@ def monitor_case(c, ops, impl, W):
         if op == "newemb":
             ext = sop[1][1].replace(W_TOKEN, W)
             roots = {"static": "ext", "template": None, "extdir": ext}
+            emb_ok = set()
+            for rec in sop[2][1]:
+                emb_ok.update(x for x in rec[1:] if x is not None)
+            for rec in sop[3][1]:
+                emb_ok.add(rec[1])
         if op in ("static", "template", "swapstatic", "swaptemplate"):
             kind = "static" if "static" in op else "template"
             f = main.split()
